@@ -274,6 +274,40 @@ impl<F, R> CongressSample<F, R> {
     }
 }
 
+/// Verification hooks: the sampler's clock is not injectable, so the end of an interval is triggered by hand and
+/// the per-group state is read out.
+#[cfg(metrique_verif)]
+#[doc(hidden)]
+impl<F, R> CongressSample<F, R> {
+    /// Run the end-of-interval rate update now.
+    pub fn verif_update_rates(&mut self) {
+        self.update_rates()
+    }
+
+    /// Observations counted in the current interval.
+    pub fn verif_current_observed(&self) -> u32 {
+        self.current_observed
+    }
+
+    /// Per group: (sorted group key, sample rate, moving average, observations in the current interval,
+    /// consecutive intervals without observations, size in congress).
+    pub fn verif_group_states(&self) -> Vec<(Vec<(String, String)>, f32, f32, u32, u8, f32)> {
+        self.groups
+            .iter()
+            .map(|(k, g)| {
+                (
+                    k.iter().map(|(a, b)| (a.to_string(), b.to_string())).collect(),
+                    g.sample_rate,
+                    g.average_observed.current(),
+                    g.current_observed,
+                    g.consecutive_no_observations,
+                    g.size_in_congress,
+                )
+            })
+            .collect()
+    }
+}
+
 #[derive(Clone, Copy, Default)]
 struct GroupState {
     current_observed: u32,
